@@ -36,7 +36,7 @@ namespace {
 struct Cover {
     uint64_t concurrentSubmits = 0, startFailuresInjected = 0, expiringPrograms = 0, updates = 0;
     uint64_t programs = 0, ops = 0, submitted = 0, ran = 0, dropped = 0, stops = 0, clears = 0, drains = 0, restarts = 0, closures = 0;
-    uint64_t stopsWithRunningTask = 0, clearsWithRunningTask = 0, stopsWithWorkerInPreBlock = 0, singleWorkerPrograms = 0, hugeMaximumPrograms = 0, programsNextToASecondPool = 0, maxWorkersSeen = 0, nontrivialCases = 0;
+    uint64_t stopsWithRunningTask = 0, clearsWithRunningTask = 0, stopsWithWorkerInPreBlock = 0, singleWorkerPrograms = 0, hugeMaximumPrograms = 0, programsNextToASecondPool = 0, programsOwnedByAWorkerOfAnotherPool = 0, maxWorkersSeen = 0, nontrivialCases = 0;
     std::vector<uint64_t> fps;
     std::vector<std::string> samples;
 } C;
@@ -390,7 +390,33 @@ struct Program {
         if (!gCaseFailed) delete pool;
     }
 
+    bool hosted = false;
     void run(int steps) {
+        // 6% of the programs are run by a thread that is itself a worker of another pool (a job that owns a private pool):
+        // every operation on the pool under test still comes from its one owning thread
+        if (!hosted && rng.chance(60)) {
+            hosted = true;
+            ++C.programsOwnedByAWorkerOfAnotherPool;
+            ThreadPool outer;
+            outer.setExpiryTimeout(-1);
+            outer.setMaxThreadCount(1);
+            std::mutex m;
+            std::condition_variable cv;
+            bool done = false;
+            outer.start([&]() {
+                spy::self()->role.store(1001);
+                run(steps);
+                std::lock_guard l{m};
+                done = true;
+                cv.notify_all();
+            });
+            {   // blocked, not polling: a program that never ends must end in the quiescence verdict
+                std::unique_lock l{m};
+                cv.wait(l, [&] { return done; });
+            }
+            if (!gCaseFailed) outer.stop();
+            return;
+        }
         if (rng.chance(130)) return runExpiring(steps);
         maxThreads = (int) std::vector<int>{1, 1, 2, 3, 4, 8}[rng.below(6)];
         // "every maximum thread count >= 1": now and then a huge one (the number of workers is still bounded by the tasks)
@@ -523,7 +549,7 @@ int main(int argc, char **argv) {
     rt::finish(rt::Json().kv("engine", "h_pool").kv("programs", C.programs).kv("ops", C.ops).kv("tasksSubmitted", C.submitted).kv("tasksRan", C.ran)
                    .kv("tasksDropped", C.dropped).kv("closureTasks", C.closures).kv("stops", C.stops).kv("clears", C.clears).kv("drains", C.drains)
                    .kv("restarts", C.restarts).kv("concurrentSubmitBursts", C.concurrentSubmits).kv("threadCreationFailuresInjected", C.startFailuresInjected).kv("programsWithExpiringWorkers", C.expiringPrograms).kv("updateCalls", C.updates).kv("stopsWithRunningTask", C.stopsWithRunningTask).kv("clearsWithRunningTask", C.clearsWithRunningTask)
-                   .kv("stopsWithWorkerInPreBlockWindow", C.stopsWithWorkerInPreBlock).kv("singleWorkerPrograms", C.singleWorkerPrograms).kv("hugeMaximumPrograms", C.hugeMaximumPrograms).kv("programsNextToASecondPool", C.programsNextToASecondPool)
+                   .kv("stopsWithWorkerInPreBlockWindow", C.stopsWithWorkerInPreBlock).kv("singleWorkerPrograms", C.singleWorkerPrograms).kv("hugeMaximumPrograms", C.hugeMaximumPrograms).kv("programsNextToASecondPool", C.programsNextToASecondPool).kv("programsOwnedByAWorkerOfAnotherPool", C.programsOwnedByAWorkerOfAnotherPool)
                    .kv("maxWorkersSeen", C.maxWorkersSeen).kv("nontrivialCases", C.nontrivialCases)
                    .kv("delaysCondEntry", k.condEntry.load()).kv("delaysAfterWake", k.afterWake.load()).kv("delaysOther", k.beforeLock.load() + k.afterUnlock.load() + k.beforeNotify.load() + k.threadStart.load())
                    .kv("workerThreadsCreated", k.creates.load()).kv("poolCondWaits", k.watchedCondWaits.load())
